@@ -269,6 +269,167 @@ def from_field(tree):
     return "Definition gen_from_field (p : gen_params) (f : vfield) (name : aname) : res spec :=\n  let shared_name := @None dim in\n  " + body + ".\n"
 
 
+FIXED = {"variant_contig": 0, "variant_filter": 1, "variant_allele": 2, "variant_id": 3, "variant_id_mask": 4, "variant_quality": 5,
+         "variant_position": 6, "variant_length": 7, "call_genotype_phased": 8, "call_genotype": 9, "call_genotype_mask": 10}
+GSCAL = {"m": "g_m p", "n": "g_n p", "variants_chunk_size": "g_vcs p", "samples_chunk_size": "g_scs p", "icf.metadata.num_contigs": "g_num_contigs p",
+         "icf.metadata.num_filters": "g_num_filters p", "max_alleles": "g_max_alleles p", "ploidy": "ploidy"}
+GDIMS = dict(DIMS, filters="DFilters", ploidy="DPloidy")
+
+
+def glist(e, what):
+    if not isinstance(e, (ast.List, ast.Tuple)):
+        raise Unsupported(f"{what}: not a literal sequence: " + src(e))
+    out = []
+    for x in e.elts:
+        if what == "dims":
+            if not (isinstance(x, ast.Constant) and x.value in GDIMS):
+                raise Unsupported("dimension: " + src(x))
+            out.append(GDIMS[x.value])
+        else:
+            t = src(x)
+            if t not in GSCAL:
+                raise Unsupported(f"{what} entry: " + t)
+            out.append(GSCAL[t])
+    return "[" + "; ".join(out) + "]"
+
+
+def generate(tree):
+    """VcfZarrSchema.generate: the list of array specifications, in order"""
+    gen = find(tree, "VcfZarrSchema.generate")
+    body = strip(gen.body)
+    t = [src(x) for x in body]
+    # the helpers: fixed_field_spec's defaults and spec_from_field's hand-over
+    ffs = next((x for x in body if isinstance(x, ast.FunctionDef) and x.name == "fixed_field_spec"), None)
+    sff = next((x for x in body if isinstance(x, ast.FunctionDef) and x.name == "spec_from_field"), None)
+    if ffs is None or sff is None:
+        raise Unsupported("generate: helper functions")
+    d = {a.arg: src(v) for a, v in zip(ffs.args.args[-len(ffs.args.defaults):], ffs.args.defaults)}
+    if d != {"vcf_field": "None", "shape": "(m,)", "dimensions": "('variants',)", "chunks": "None"}:
+        raise Unsupported("fixed_field_spec defaults: " + str(d))
+    fb = strip(ffs.body)
+    if len(fb) != 1 or src(fb[0]).replace(" ", "") != "returnZarrArraySpec.new(vcf_field=vcf_field,name=name,dtype=dtype,shape=shape,description='',dimensions=dimensions,chunks=chunksor[variants_chunk_size])":
+        raise Unsupported("fixed_field_spec body: " + src(fb[0])[:160])
+    sb = strip(sff.body)
+    want = "returnZarrArraySpec.from_field(field,num_samples=n,num_variants=m,samples_chunk_size=samples_chunk_size,variants_chunk_size=variants_chunk_size,array_name=array_name,shared_dimension_sizes=shared_dimension_sizes)"
+    if len(sb) != 1 or src(sb[0]).replace(" ", "") != want:
+        raise Unsupported("spec_from_field body")
+    if "m = icf.num_records" not in t or "n = icf.num_samples" not in t:
+        raise Unsupported("generate: m / n")
+
+    def fixed_call(c):
+        kw = {k.arg: k.value for k in c.keywords}
+        if c.args or not set(kw) <= {"name", "dtype", "shape", "dimensions", "chunks"} or "name" not in kw or "dtype" not in kw:
+            raise Unsupported("fixed_field_spec call: " + src(c)[:100])
+        nm = kw["name"].value
+        if nm not in FIXED:
+            raise Unsupported("unknown fixed array: " + str(nm))
+        dt = kw["dtype"]
+        if isinstance(dt, ast.Constant) and dt.value in DTYPES:
+            dts = DTYPES[dt.value]
+        elif src(dt) == "core.min_int_dtype(0, icf.metadata.num_contigs)":
+            dts = "cdt"
+        else:
+            raise Unsupported("fixed dtype: " + src(dt))
+        shape = glist(kw["shape"], "shape") if "shape" in kw else "[g_m p]"
+        dims = glist(kw["dimensions"], "dims") if "dimensions" in kw else "[DVariants]"
+        chunks = glist(kw["chunks"], "chunks") if "chunks" in kw else "[g_vcs p]"
+        return f"fixed_spec p {FIXED[nm]} {dts} {shape} {chunks} {dims}"
+
+    acc = None
+    parts = []          # Coq terms of type res (list spec), concatenated in order
+    i = 0
+    stmts = [x for x in body if not isinstance(x, ast.FunctionDef)]
+    seen_gt_loop = seen_gt_block = False
+    ret_ok = False
+    for st in stmts:
+        tt = src(st)
+        if isinstance(st, ast.Assign) and isinstance(st.value, ast.List) and st.value.elts and all(isinstance(e, ast.Call) and src(e.func) == "fixed_field_spec" for e in st.value.elts):
+            acc = src(st.targets[0])
+            parts.append("Ok [" + ";\n      ".join(fixed_call(e) for e in st.value.elts) + "]")
+            continue
+        if acc and isinstance(st, ast.Expr) and isinstance(st.value, ast.Call) and src(st.value.func) == f"{acc}.extend" and len(st.value.args) == 1:
+            a = st.value.args[0]
+            if isinstance(a, ast.List) and all(isinstance(e, ast.Call) and src(e.func) == "spec_from_field" for e in a.elts):
+                for e in a.elts:
+                    kw = {k.arg: k.value for k in e.keywords}
+                    f0 = src(e.args[0])
+                    fld = {"name_map['QUAL']": "qual", "name_map['POS']": "pos", "name_map['rlen']": "rlen"}.get(f0)
+                    if fld is None or set(kw) != {"array_name"} or kw["array_name"].value not in FIXED:
+                        raise Unsupported("fixed field spec: " + src(e)[:100])
+                    parts.append(f"bind (gen_from_field p {fld} (AFixed {FIXED[kw['array_name'].value]})) (fun x => Ok [x])")
+                continue
+            if src(a) == "[spec_from_field(field) for field in icf.metadata.info_fields]":
+                parts.append("mapM (fun f => gen_from_field p f (field_name f)) infos")
+                continue
+            raise Unsupported("extend: " + tt[:100])
+        if acc and isinstance(st, ast.For) and src(st.iter) == "icf.metadata.format_fields":
+            b = strip(st.body)
+            v = st.target.id
+            ok = False
+            if len(b) == 2 and isinstance(b[0], ast.If) and src(b[0].test) == f"{v}.name == 'GT'" and not b[0].orelse \
+                    and [src(x) for x in strip(b[0].body)] == [f"gt_field = {v}", "continue"] and src(b[1]) == f"{acc}.append(spec_from_field({v}))":
+                ok = True
+            if len(b) == 1 and isinstance(b[0], ast.If) and src(b[0].test) == f"{v}.name == 'GT'" \
+                    and [src(x) for x in strip(b[0].body)] == [f"gt_field = {v}"] and [src(x) for x in strip(b[0].orelse)] == [f"{acc}.append(spec_from_field({v}))"]:
+                ok = True
+            if not ok:
+                raise Unsupported("FORMAT loop: " + tt[:120])
+            seen_gt_loop = True
+            parts.append("mapM (fun f => gen_from_field p f (field_name f)) formats")
+            continue
+        if acc and isinstance(st, ast.If) and src(st.test) == "gt_field is not None" and not st.orelse:
+            gb = strip(st.body)
+            gt = [src(x) for x in gb]
+            if gt[:4] != ["ploidy = max(gt_field.summary.max_number - 1, 1)", "shape = [m, n]", "chunks = [variants_chunk_size, samples_chunk_size]", "dimensions = ['variants', 'samples']"]:
+                raise Unsupported("GT block prologue: " + " | ".join(gt[:4])[:200])
+            cur = dict(shape="[g_m p; g_n p]", chunks="[g_vcs p; g_scs p]", dims="[DVariants; DSamples]")
+            specs = []
+            for x in gb[4:]:
+                xt = src(x)
+                if xt == "shape += [ploidy]":
+                    cur["shape"] = cur["shape"] + " ++ [ploidy]"
+                elif xt == "chunks += [ploidy]":
+                    cur["chunks"] = cur["chunks"] + " ++ [ploidy]"
+                elif xt == "dimensions += ['ploidy']":
+                    cur["dims"] = cur["dims"] + " ++ [DPloidy]"
+                elif isinstance(x, ast.Expr) and isinstance(x.value, ast.Call) and src(x.value.func) == f"{acc}.append" and isinstance(x.value.args[0], ast.Call) \
+                        and src(x.value.args[0].func) == "ZarrArraySpec.new":
+                    kw = {k.arg: src(k.value) for k in x.value.args[0].keywords}
+                    if kw.get("vcf_field") != "None" or kw.get("shape") != "list(shape)" or kw.get("chunks") != "list(chunks)" or kw.get("dimensions") != "list(dimensions)":
+                        raise Unsupported("GT array: " + xt[:120])
+                    nm = ast.literal_eval(kw["name"])
+                    dt = "gdt" if kw["dtype"] == "gt_field.smallest_dtype()" else DTYPES.get(ast.literal_eval(kw["dtype"]))
+                    if nm not in FIXED or dt is None:
+                        raise Unsupported("GT array name / dtype: " + xt[:120])
+                    specs.append(f"fixed_spec p {FIXED[nm]} {dt} ({cur['shape']}) ({cur['chunks']}) ({cur['dims']})")
+                else:
+                    raise Unsupported("GT block: " + xt[:100])
+            seen_gt_block = True
+            parts.append("match gt with\n    | None => Ok []\n    | Some g => bind (gen_smallest_dtype g) (fun gdt =>\n        let ploidy := Z.max (s_max_number (f_sum g) - 1) 1 in\n        Ok ["
+                         + ";\n            ".join(specs) + "])\n    end")
+            continue
+        if isinstance(st, ast.Return):
+            kw = {k.arg: src(k.value) for k in st.value.keywords} if isinstance(st.value, ast.Call) and src(st.value.func) == "VcfZarrSchema" else {}
+            if kw.get("fields") != acc:
+                raise Unsupported("return: " + tt[:100])
+            ret_ok = True
+            continue
+        # everything else must not touch the accumulator
+        if acc and acc in {n.id for n in ast.walk(st) if isinstance(n, ast.Name)}:
+            raise Unsupported("statement on the array list: " + tt[:100])
+    if not (acc and seen_gt_loop and seen_gt_block and ret_ok):
+        raise Unsupported("generate: incomplete")
+    term = "Ok []"
+    out = "Definition gen_generate (p : gen_params) (qual pos rlen : vfield) (infos formats : list vfield) (gt : option vfield) : res (list spec) :=\n"
+    out += "  bind (min_int_dtype 0 (g_num_contigs p)) (fun cdt =>\n"
+    names = []
+    for k, part in enumerate(parts):
+        out += f"  bind ({part}) (fun part{k} =>\n"
+        names.append(f"part{k}")
+    out += "  Ok (" + " ++ ".join(names) + "))" + ")" * len(parts) + ".\n"
+    return out
+
+
 def main():
     out_dir = sys.argv[1]
     path = os.path.join(out_dir, "GenSchema.v")
@@ -277,7 +438,7 @@ def main():
         vcz = ast.parse(open(os.path.join(REPO, "bio2zarr/vcf2zarr/vcz.py")).read())
         text = (f"(* GENERATED by translator/schema2coq.py from {REPO}/bio2zarr/vcf2zarr/icf.py (smallest_dtype) and vcz.py (from_field, generate's shared dimension table) *)\n"
                 "From Coq Require Import ZArith List Bool.\nFrom B2Z Require Import Base.Prims Model.Schema.\nImport ListNotations.\nOpen Scope Z_scope.\n\n"
-                + smallest_dtype(icf) + "\n" + sizes_table(vcz) + "\n" + from_field(vcz))
+                + smallest_dtype(icf) + "\n" + sizes_table(vcz) + "\n" + from_field(vcz) + "\n" + generate(vcz))
         status = "ok"
     except Unsupported as u:
         text = f"(* TRANSLATION FAILED (fail-closed): {u} *)\n"
